@@ -512,6 +512,13 @@ def specs_for(ctx):
     # named outputs next to the default output name
     for n in ((2, 3) if ctx.quick else (2, 3, 4)):
         specs += dag_specs(n, "unique", payloads=("alt",), outputs=("multi",), out_names=("0", "b"))
+    for n in (2, 3):
+        specs += dag_specs(n, "unique", payloads=("alt",), outputs=("single-named",), out_names=("result",))
+    # sink lists as unions produce them (`g1 + g2` with g2 extending g1): interior nodes listed as sinks too, one sink twice
+    for n in ((2, 3) if ctx.quick else (2, 3, 4)):
+        for sp in dag_specs(n, "unique", payloads=("alt",), outputs=("default", "multi")):
+            if sp.edges:
+                specs.append(GraphSpec(sp.nodes, sp.edges, sp.tag + ":overlap-sinks", sinks="overlap"))
     return specs
 
 
